@@ -15,12 +15,16 @@ import MitmVerif.Basic.Bytes
 namespace MitmVerif.C52
 
 /-- a recorded flow: `id` names the Python object, `hasResp` is `bool(flow.response)`,
-    `isHttp` is `isinstance(flow, http.HTTPFlow)` -/
+    `isHttp` is `isinstance(flow, http.HTTPFlow)`, `resp` stands for the recorded response as it was loaded
+    (status, headers, body).  A request that is served `r` receives a COPY of that response (`Outcome.served r`
+    carries the recording's value); nothing in the addon writes to a recording, and what a later addon does to
+    a served copy (`Event.edit`) does not reach the addon's state. -/
 structure Rec (Req : Type) where
   id : Nat
   req : Req
   hasResp : Bool
   isHttp : Bool
+  resp : Nat
 deriving DecidableEq, Repr
 
 /-- `server_replay_extra` -/
@@ -147,6 +151,7 @@ inductive Event (O Req : Type) where
   | clear
   | configure (o : O)
   | request (q : Req) (c : RCfg)
+  | edit (k : Nat) (content : Nat)   -- a later addon rewrites the response that the k-th request was given
 
 def step (s : State O Req Key) : Event O Req → State O Req Key × Option (Outcome Req)
   | .load rs => (loadFlows hash s rs, none)
@@ -154,6 +159,7 @@ def step (s : State O Req Key) : Event O Req → State O Req Key × Option (Outc
   | .clear => (clear s, none)
   | .configure o => (configure hash s o, none)
   | .request q c => let (s', o) := request hash s q c; (s', some o)
+  | .edit _ _ => (s, none)
 
 /-- state after a history, and the outcomes of its requests in order -/
 def runFrom (s : State O Req Key) : List (Event O Req) → State O Req Key × List (Outcome Req)
